@@ -1257,6 +1257,55 @@ def rule_from_bounds(rep: Report, ix: Index) -> None:
 
 
 # ============================================================================= entry
+def rule_mesh_owns_subgrids(rep: Report, ix) -> None:
+    """GridMesh.__init__ marks every sub-grid as a member of the mesh (`subgrid._mesh = self`), and
+    `_subdivide_along_axis` hands its argument back unchanged when an axis is not split (`chunks == 1`).  Splitting must
+    not change the grid that is split: GridMesh.from_grid therefore never stores the caller's grid object itself into the
+    array of sub-grids -- every value stored there is the result of a call (a copy, a subdivision), never the parameter
+    (or a plain alias of it)."""
+    f = ix.func(MESH, "GridMesh.from_grid")
+    rep.saw("functions", f.ref)
+    params = [a.arg for a in f.node.args.args]
+    if len(params) < 2:
+        raise AnalysisError(f"{f.ref}: expected (cls, grid, ...)")
+    gname = params[1]
+    aliases = {gname}
+    for x in ast.walk(f.node):
+        if isinstance(x, ast.Assign) and isinstance(x.value, ast.Name) and x.value.id in aliases:
+            for t in x.targets:
+                if isinstance(t, ast.Name):
+                    aliases.add(t.id)
+    # the array of sub-grids: the name handed to cls(..., subgrids=<name>)
+    arr = None
+    for x in ast.walk(f.node):
+        if isinstance(x, ast.Call) and isinstance(x.func, ast.Name) and x.func.id == params[0]:
+            for k in x.keywords:
+                if k.arg == "subgrids" and isinstance(k.value, ast.Name):
+                    arr = k.value.id
+    if arr is None:
+        raise AnalysisError(f"{f.ref}: `cls(..., subgrids=<name>)` not found")
+    stores = []
+    for x in ast.walk(f.node):
+        if isinstance(x, ast.Assign):
+            for t in x.targets:
+                base = t
+                while isinstance(base, (ast.Subscript, ast.Attribute)):
+                    base = base.value
+                if isinstance(t, ast.Subscript) and isinstance(base, ast.Name) and base.id == arr:
+                    stores.append(x)
+    rep.floor(f"{f.ref}: stores into the sub-grid array", len(stores), 2)
+    bad = [x for x in stores if isinstance(x.value, ast.Name) and x.value.id in aliases]
+    rep.oblige("from_grid: the grid being split is not itself stored as a sub-grid", not bad, [ast.unparse(x) for x in bad])
+    for x in bad:
+        rep.violation(
+            "C17.mesh-owns-subgrids",
+            f"{f.ref}::{arr}::stores-caller-grid",
+            f"`{ast.unparse(x)}` stores the caller's grid `{gname}` itself in the mesh: for a decomposition that leaves every axis unsplit `_subdivide_along_axis` returns that very object, "
+            "GridMesh.__init__ then marks the full grid as a sub-grid of its own mesh (`_mesh` set), and later splits / whole-grid operators on the same grid object fail -- splitting changed the grid",
+            line=x.lineno,
+        )
+
+
 def check(tier: str) -> Report:
     rep = Report("C17", tier, "other", "static: symbolic extraction of partition/cursor recurrences, neighbour case table, MPI index tuples; constructor-parameter matching of to_subgrid")
     rep.explanation = (
@@ -1277,6 +1326,7 @@ def check(tier: str) -> Report:
     rule_bc_extraction(rep, ix)
     rule_to_subgrid(rep, ix)
     rule_from_bounds(rep, ix)
+    rule_mesh_owns_subgrids(rep, ix)
     rep.assumptions += [
         "documented semantics of np.linspace (endpoints exact), ndarray.astype(int) (truncation, monotone, exact on integers), np.diff, np.unravel_index/np.ravel_multi_index (inverse for the same shape)",
         "the end-to-end equality of operators on the mesh (needs MPI at run time) is not decided -- only its ingredients",
